@@ -97,6 +97,10 @@ class Facts:
         out: Set[str] = set()
         for fx, pol in self.atoms:
             if not pol:
+                # not (a != c)  ==  a == c
+                if isinstance(fx, ast.Compare) and len(fx.ops) == 1 and isinstance(fx.ops[0], ast.NotEq):
+                    eq = ast.Compare(left=fx.left, ops=[ast.Eq()], comparators=fx.comparators)
+                    out |= self._str_alts(eq, subject)
                 continue
             out |= self._str_alts(fx, subject)
         return out
@@ -165,6 +169,17 @@ def name_call(t: Term) -> Optional[Tuple[str, List[Term], Term]]:
     if a is None or a[0] != "list":
         return None
     return fid[1], list(a[1]), d.get("keywords", ("list", ()))
+
+
+def name_call_name(t: Term) -> Optional[str]:
+    """ast.Call(ast.Name(<const str>), <any args>, ..) -> name"""
+    d = new_call_parts(t)
+    if d is None:
+        return None
+    f = d.get("func")
+    if not f or f[0] != "new" or f[1] != "Name":
+        return None
+    return "?"
 
 
 def unphi(t: Term) -> List[Term]:
